@@ -84,7 +84,10 @@ def truth(v):
         if '__truth__' in v.attrs:
             return v.attrs['__truth__']
         return True
-    return bool(v)
+    try:
+        return bool(v)
+    except Exception as ex:
+        raise Raised(type(ex).__name__, str(ex))
 
 
 _CMP = {
@@ -195,7 +198,11 @@ class FD:
             raise Inconclusive('fdeval: comprehension over a non-concrete iterable')
         out = []
         inner = dict(env)
-        for item in list(it):
+        try:
+            items = list(it)
+        except TypeError as ex:
+            raise Raised('TypeError', str(ex))
+        for item in items:
             self.assign(g.target, item, inner)
             if all(truth(self.eval(c, inner)) for c in g.ifs):
                 out.append(self.eval(e.elt, inner))
@@ -282,9 +289,13 @@ class FD:
                 else:
                     same = left is right
                 return same if isinstance(op, ast.Is) else not same
-            same = (left is right) if (left is None or right is None or isinstance(left, bool)
-                                       or isinstance(right, bool)) else (type(left) is type(right)
-                                                                          and left == right)
+            if getattr(type(left), '_fd_identity', False) or getattr(type(right), '_fd_identity', False) or \
+                    isinstance(left, (list, dict, set)) or isinstance(right, (list, dict, set)):
+                same = left is right
+            else:
+                same = (left is right) if (left is None or right is None or isinstance(left, bool)
+                                           or isinstance(right, bool)) else (type(left) is type(right)
+                                                                              and left == right)
             return same if isinstance(op, ast.Is) else not same
         if isinstance(op, (ast.In, ast.NotIn)):
             if right is UNKNOWN or left is UNKNOWN:
@@ -321,7 +332,10 @@ class FD:
                 else:
                     return UNKNOWN
             else:
-                eq = left == right
+                try:
+                    eq = bool(left == right)
+                except Exception as ex:
+                    raise Raised(type(ex).__name__, str(ex))
             return eq if isinstance(op, ast.Eq) else not eq
         # ordering
         if left is ERR or right is ERR:
@@ -613,7 +627,11 @@ class FD:
             if it is UNKNOWN or isinstance(it, (Opaque, Obj)) or it is ERR:
                 raise Inconclusive('fdeval: loop over a non-concrete iterable')
             broke = False
-            for item in list(it):
+            try:
+                items = list(it)
+            except TypeError as ex:
+                raise Raised('TypeError', str(ex))
+            for item in items:
                 self.assign(st.target, item, env)
                 try:
                     self.block(st.body, env)
